@@ -678,6 +678,8 @@ func (g *G) Doc(p *Path) *DNode {
 func (g *G) Opaquify(d *DNode) *DNode {
 	d = d.Clone()
 	count := 0
+	last := ""
+	newTagPct := []int{100, 50, 0}[g.intn("tagvariety", 3)] // all different ... all of one Go type
 	var walk func(n *DNode, depth int) *DNode
 	walk = func(n *DNode, depth int) *DNode {
 		isLeaf := len(n.Kids) == 0
@@ -687,7 +689,12 @@ func (g *G) Opaquify(d *DNode) *DNode {
 		}
 		if depth > 0 && g.chance("opq", pct) {
 			count++
-			return Opaque(OpaqueTags[g.intn("tag", len(OpaqueTags))])
+			// depending on the document, replacements repeat the previous type: two values of one (possibly
+			// uncomparable) Go type are what a path-vs-path comparison has to cope with
+			if last == "" || g.chance("newtag", newTagPct) {
+				last = OpaqueTags[g.intn("tag", len(OpaqueTags))]
+			}
+			return Opaque(last)
 		}
 		for i := range n.Kids {
 			n.Kids[i] = walk(n.Kids[i], depth+1)
@@ -695,7 +702,7 @@ func (g *G) Opaquify(d *DNode) *DNode {
 		return n
 	}
 	d = walk(d, 0)
-	if g.chance("opaqueroot", 3) {
+	if g.chance("opaqueroot", 8) {
 		// the whole document is not decoded JSON
 		return Opaque(OpaqueTags[g.intn("roottag", len(OpaqueTags))])
 	}
